@@ -12,7 +12,7 @@
 use super::nt::{write_term, write_triple};
 use sophia_api::quad::Quad;
 use sophia_api::serializer::{QuadSerializer, Stringifier};
-use sophia_api::source::{QuadSource, StreamResult};
+use sophia_api::source::{QuadSource, SinkError, StreamResult};
 use std::io;
 
 /// N-Quads serializer configuration.
@@ -74,8 +74,10 @@ where
                         w.write_all(b".\n")
                     }
                 }
-            })
-            .map(|()| self)
+            })?;
+        // the writer is owned by the serializer: nobody else can flush it
+        self.write.flush().map_err(SinkError)?;
+        Ok(self)
     }
 }
 
